@@ -1,5 +1,6 @@
 /- the deep codec model instantiated with the tables regenerated from the source -/
 import APModel.Model.Deep
+import APModel.Model.DeepGob
 import APModel.Model.Equal
 import APModel.Spec.Vocabulary
 import APModel.Generated.Equals
@@ -29,3 +30,20 @@ def envJson : Env where
   eqv a b := (Equal.itemsEqual APModel.Generated.equalsRows a b).getD false
 
 end APModel.Deep
+
+namespace APModel.DeepGob
+open APModel APModel.Codec
+
+/-- GetItemByType followed by the decoder's switch: a vocabulary name selects its struct, any other name a plain object -/
+def kindOfTypeName (t : Str) : Option Kind :=
+  match Spec.vocabulary.find? (fun e => nm e.name == t) with
+  | some e => some e.kind
+  | none => some .object
+
+def envGob : Env where
+  wrow sn n := (gobW sn).find? (fun w => w.field == n)
+  rrow sn key := (gobR sn).find? (fun r => nm r.term == key)
+  fieldKind sn n := (((schemaOf sn).find? (fun r => r.1 == n)).map (fun r => r.2.1)).getD "?"
+  kindOfType := kindOfTypeName
+
+end APModel.DeepGob
